@@ -267,11 +267,14 @@ def check(repo, tier):
             for b, uid in uids.items():
                 e = [x for x in sc.events('svd') if x['uid'] == uid][0]
                 root = e['array']
-                while isinstance(root, Arr) and opalg_of(root) is None and root.parents:
-                    root = root.parents[0]
+                # (only through views that keep content and layout: a sum  zeros + terms  whose terms have no normal form must not be taken for its first operand)
+                while isinstance(root, Arr) and opalg_of(root) is None and root.parents and (root.origin in ('copy', 'ascontiguousarray', 'asarray', 'astype') or root.tags.get('is_reshape')):
+                    root = root.parents[0]          # (the matricisation of the super-core that is handed to the SVD, copies)
                 got = opalg_of(root)
                 want_op = expected_double(tcr[b])
-                ok = got is not None and got.same(want_op)
+                if got is None:
+                    raise AnalysisError(f'{scen}: the super-core of bond {b} is assembled in a way the elementary-operator normal form does not follow ({root.origin})')
+                ok = got.same(want_op)
                 run.oblige('D2', (entry, scen, f'double{b}'), ok)
                 if not ok:
                     run.add(F(entry, 'D2', 'two-cell term', f'{scen}: the super-core of bond {b} is {got}, the definition gives {want_op}'))
@@ -343,6 +346,9 @@ def index_source(v):
                     return ('unique', r, off, rows)
         if 'inverse_of' in v.tags:
             return ('inverse', v.tags['inverse_of'], off)
+        if v.ndim == 1 and v.parents and isinstance(v.parents[0], Arr) and v.parents[0].ndim == 1 and (v.tags.get('is_reshape') or v.origin in ('copy', 'astype', 'asarray', 'ravel', 'flatten')):
+            v = v.parents[0]                    # a flattened / copied index vector is the same index vector
+            continue
         break
     return None
 
@@ -392,11 +398,18 @@ def ulam_rule(run, repo, F):
                         break
             if abs(coef - 1 / 100) > 1e-12:
                 bad.append(f'the operator is scaled by {coef}, expected 1/simulations')
+            swapped = {}
             for k, (r, path) in enumerate(roots):
-                ntr = sum(1 for p in path if p.origin == 'transpose' or (p.shape and len(p.shape) == 4 and p.origin in ('getitem',) and False))
-                # transposition: the final row axis must be the assembled column axis
-                if not (sz_eq(cores[k].shape[1], r.shape[2]) and sz_eq(cores[k].shape[2], r.shape[1])):
-                    bad.append(f'core {k} is not transposed exactly once')
+                # how often row and column axis were exchanged between the assembled array and the returned core
+                ntr = 0
+                for p in path:
+                    if p.origin == 'transpose':
+                        perm = tuple(p.tags.get('perm', ()))
+                        if perm == (0, 2, 1, 3):
+                            ntr += 1
+                        elif perm != (0, 1, 2, 3):
+                            raise AnalysisError(f'{scen}: core {k} goes through an axis permutation {perm} the Ulam rule does not follow')
+                swapped[k] = ntr % 2 == 1
             nd = len(cores)
             for k, (r, path) in enumerate(roots):
                 stores = r.tags.get('stores', [])
@@ -415,23 +428,26 @@ def ulam_rule(run, repo, F):
                         bad.append(f'core {k}: the stored value is {st["value"]!r}, expected 1')
                     sel = st['sel']
                     srcs = [index_source(s[1]) if s[0] == 'int' and isinstance(s[1], Arr) else (('const', s[1]) if s[0] == 'int' else None) for s in sel]
+                    # the returned operator is column-stochastic: in the RETURNED core the row axis is addressed by the target and the column axis by the source
+                    # coordinate (the library assembles (source, target) and transposes once; assembling (target, source) directly is the same thing)
+                    a_row, a_col = (srcs[2], srcs[1]) if swapped[k] else (srcs[1], srcs[2])
                     if is_count:
                         want_rows = mid
-                        if not (srcs[1] and srcs[1][0] == 'transitions' and srcs[1][1] == want_rows[0] and srcs[1][2] == -1 and srcs[2] and srcs[2][0] == 'transitions' and srcs[2][1] == want_rows[1] and srcs[2][2] == -1):
-                            bad.append(f'the count core is addressed by {srcs[1]}, {srcs[2]} instead of (transitions[{want_rows[0]}] - 1, transitions[{want_rows[1]}] - 1)')
+                        if not (a_col and a_col[0] == 'transitions' and a_col[1] == want_rows[0] and a_col[2] == -1 and a_row and a_row[0] == 'transitions' and a_row[1] == want_rows[1] and a_row[2] == -1):
+                            bad.append(f'in the returned count core the row / column axes are addressed by {a_row}, {a_col} instead of (transitions[{want_rows[1]}] - 1, transitions[{want_rows[0]}] - 1) = (target, source)')
                         if not (srcs[0] and srcs[0][0] == 'inverse'):
                             bad.append('the left rank index of the count core is not the inverse index of the unique first-coordinate pairs')
                         if nd == 3 and not (srcs[3] and srcs[3][0] == 'inverse'):
                             bad.append('the right rank index of the count core is not the inverse index of the unique last-coordinate pairs')
                     else:
                         want_rows = rows_first if k == 0 else rows_last
-                        ok = bool(srcs[1] and srcs[2] and srcs[1][0] == 'unique' and srcs[2][0] == 'unique' and srcs[1][2] == -1 and srcs[2][2] == -1 and srcs[1][3] and srcs[2][3])
+                        ok = bool(a_row and a_col and a_row[0] == 'unique' and a_col[0] == 'unique' and a_row[2] == -1 and a_col[2] == -1 and a_row[3] and a_col[3])
                         if ok:
                             # unique pair row r of the selection transitions[[a, b], :] is transitions row (a, b)[r]
-                            got_rows = (srcs[1][3][srcs[1][1]], srcs[2][3][srcs[2][1]])
+                            got_rows = (a_col[3][a_col[1]], a_row[3][a_row[1]])
                             ok = got_rows == tuple(want_rows)
                         if not ok:
-                            bad.append(f'indicator core {k} is addressed by {srcs[1]}, {srcs[2]} instead of (source coordinate {want_rows[0]} - 1, target coordinate {want_rows[1]} - 1) of the unique pairs')
+                            bad.append(f'in the returned indicator core {k} the row / column axes are addressed by {a_row}, {a_col} instead of (target coordinate {want_rows[1]} - 1, source coordinate {want_rows[0]} - 1) of the unique pairs')
             run.oblige('D4', (entry, scen), not bad, sample={'rule': 'D4', 'function': fname, 'verdict': 'held' if not bad else 'VIOLATED'})
             if bad:
                 run.add(F(entry, 'D4', 'Ulam counting cores', f'{scen}: ' + '; '.join(sorted(set(bad))[:3])))
